@@ -59,6 +59,8 @@ def tlc(workdir, module, cfg, workers=None, timeout=1800, env=None, extra=()):
     e = dict(os.environ)
     if env:
         e.update(env)
+    # (the JVM of TLC leaves an empty tlc-<n> directory in its temporary directory: keep it inside the scratch directory of the run)
+    e['JAVA_TOOL_OPTIONS'] = (e.get('JAVA_TOOL_OPTIONS', '') + ' -Djava.io.tmpdir=' + workdir).strip()
     p = subprocess.run(cmd, cwd=workdir, env=e, capture_output=True, text=True, preexec_fn=_die_with_parent)
     shutil.rmtree(meta, ignore_errors=True)
     if p.returncode == 124:
@@ -170,7 +172,7 @@ def validate(workdir, tspec, tcfg, traces, jobs=None, timeout=1800):
         meta = tempfile.mkdtemp(prefix='meta-', dir=workdir)
         # the trace monitors hold one chunk of traces in memory: a few GB of heap are plenty, and eight JVMs
         # with the default (a quarter of the RAM each) have exhausted the machine before
-        env = dict(os.environ, TRACE_FILE=tf, OUT_FILE=of, JAVA_TOOL_OPTIONS=(os.environ.get('JAVA_TOOL_OPTIONS', '') + ' -Xmx4g -Xss512m').strip())
+        env = dict(os.environ, TRACE_FILE=tf, OUT_FILE=of, JAVA_TOOL_OPTIONS=(os.environ.get('JAVA_TOOL_OPTIONS', '') + ' -Xmx4g -Xss512m -Djava.io.tmpdir=' + workdir).strip())
         lf = open(os.path.join(workdir, 'tlc-trace%d.log' % k), 'w')
         p = subprocess.Popen(['timeout', str(timeout), 'tlc', '-workers', '1', '-metadir', meta, '-config', tcfg, tspec],
                              cwd=workdir, env=env, stdout=lf, stderr=subprocess.STDOUT, preexec_fn=_die_with_parent)
